@@ -171,9 +171,13 @@ func genStateSource(r *vh.RNG, k *kase, clash bool) {
 	for _, a := range accts {
 		kvs = append(kvs, kv{a.key, encAcct(a.a)})
 	}
+	if k.tags["bad-leaf"] {
+		// a leaf of the account trie that is not an account: the leaf callback fails on the genuine blob
+		kvs = append(kvs, kv{crypto.Keccak256([]byte("bad-leaf")), append([]byte{0x01}, r.Bytes(40)...)})
+	}
 	root := buildTrie(mem, emptyRoot, kvs)
 	k.roots = append(k.roots, root)
-	if r.Chance(30) && !clash {
+	if r.Chance(30) && !clash && !k.tags["bad-leaf"] {
 		// a later state: some accounts changed, one added, one deleted
 		var upd []kv
 		for i := 0; i < r.Range(1, 3); i++ {
